@@ -125,6 +125,7 @@ impl QGen {
                 }
             }
             let mut chosen = 0;
+            let mut open_group = 0;
             let nk = kids.len();
             for (i, (k, f)) in kids.iter().enumerate() {
                 if chosen >= 3 {
@@ -145,6 +146,11 @@ impl QGen {
                     s.push_str(" .");
                 }
                 s.push(' ');
+                if open_group == 0 && rng.chance(1, 9) {
+                    // a plain group: the next two child patterns as one parenthesised sequence
+                    s.push('(');
+                    open_group = 2;
+                }
                 if let Some(f) = f {
                     if rng.chance(2, 3) {
                         s.push_str(f.as_str());
@@ -160,9 +166,18 @@ impl QGen {
                     s.push_str(&c);
                 }
                 chosen += 1;
-                if (i + 1 == nk || chosen == 3) && rng.chance(1, 7) {
+                if open_group > 0 {
+                    open_group -= 1;
+                    if open_group == 0 {
+                        s.push(')');
+                    }
+                }
+                if (i + 1 == nk || chosen == 3) && open_group == 0 && rng.chance(1, 7) {
                     s.push_str(" .");
                 }
+            }
+            if open_group > 0 {
+                s.push(')');
             }
             if !self.fields.is_empty() && rng.chance(1, 10) {
                 let f = rng.pick(&self.fields).clone();
@@ -317,7 +332,15 @@ fn gen_sibling_window(rng: &mut Rng, g: &QGen, named: &[&Node]) -> Option<String
             s.push_str(&g.capture(rng));
         }
     }
-    if rng.chance(1, 6) {
+    let mut trailing_opt = false;
+    if rng.chance(1, 2) && !g.named_kinds.is_empty() {
+        // an optional / starred last element: when it matches nothing a trailing anchor applies to
+        // the last node that did match
+        let k = if rng.chance(1, 2) && off + w < kids.len() { kids[off + w].kind().to_string() } else { rng.pick(&g.named_kinds).clone() };
+        s.push_str(&format!(" ({k}){}", rng.pick(&["?", "*"])));
+        trailing_opt = true;
+    }
+    if rng.chance(if trailing_opt { 4 } else { 1 }, 6) {
         s.push_str(" .");
     }
     s.push(')');
